@@ -389,7 +389,22 @@ impl<M: Monitor> DynMonitor for Erased<M> {
                 }
             }
         };
-        let checked = checked_catch(&self.0, env, &case);
+        let mut checked = checked_catch(&self.0, env, &case);
+        if checked.is_violated() {
+            // A violation has to show again for the same case (at least once in two further runs): what
+            // only the load of the machine produced (a stalled process behind a wall-clock clause) does
+            // not come back, and is reported as inconclusive instead. Deterministic monitors pay nothing
+            // for this on code that holds.
+            let clause = checked.sig().map(|s| sig_class(s).to_string());
+            let reproduced = (0..2).any(|_| {
+                let again = checked_catch(&self.0, env, &case);
+                again.sig().map(sig_class) == clause.as_deref()
+            });
+            if !reproduced {
+                let sig = checked.sig().unwrap_or("?").to_string();
+                checked = Checked::inconclusive(format!("violation not reproducible, seen once in three runs of the same case: {sig}"));
+            }
+        }
         if checked.is_violated() {
             let (case, checked) = shrink_case(&self.0, env, case, &checked);
             let sample = catch(|| self.0.sample(&case)).unwrap_or(Value::Null);
